@@ -369,3 +369,52 @@ func short(s string, n int) string {
 }
 
 var _ = bytes.NewReader
+
+// ---------------------------------------------------------------- policy IdP (real signing path, stub policy)
+
+// policyMaker delegates to the library's DefaultAssertionMaker and then lets the simulator edit the assertion.
+type policyMaker struct {
+	f func(req *saml.IdpAuthnRequest)
+}
+
+func (p policyMaker) MakeAssertion(req *saml.IdpAuthnRequest, s *saml.Session) error {
+	if err := (saml.DefaultAssertionMaker{}).MakeAssertion(req, s); err != nil {
+		return err
+	}
+	if p.f != nil {
+		p.f(req)
+	}
+	return nil
+}
+
+// libIssue drives the real library IdP (NewIdpAuthnRequest, Validate, MakeAssertion, PostBinding)
+// for the HTTP request hr carrying an AuthnRequest. Panics in library code propagate (wrap in guard).
+func libIssue(idp *saml.IdentityProvider, hr *http.Request, session *saml.Session, policy func(*saml.IdpAuthnRequest)) (*saml.IdpAuthnRequest, saml.IdpAuthnRequestForm, error) {
+	req, err := saml.NewIdpAuthnRequest(idp, hr)
+	if err != nil {
+		return nil, saml.IdpAuthnRequestForm{}, fmt.Errorf("parse: %w", err)
+	}
+	if err := req.Validate(); err != nil {
+		return req, saml.IdpAuthnRequestForm{}, fmt.Errorf("validate: %w", err)
+	}
+	if err := (policyMaker{f: policy}).MakeAssertion(req, session); err != nil {
+		return req, saml.IdpAuthnRequestForm{}, fmt.Errorf("assertion: %w", err)
+	}
+	form, err := req.PostBinding()
+	if err != nil {
+		return req, form, fmt.Errorf("binding: %w", err)
+	}
+	return req, form, nil
+}
+
+// redirectRequest turns the URL of a redirect-binding message into the GET request the peer receives.
+func redirectRequest(u *url.URL) *http.Request {
+	return httptest.NewRequest("GET", u.String(), nil)
+}
+
+// postRequest builds the POST request a browser sends when it auto-submits form f.
+func postRequest(action string, fields url.Values) *http.Request {
+	r := httptest.NewRequest("POST", action, strings.NewReader(fields.Encode()))
+	r.Header.Set("Content-Type", formCT)
+	return r
+}
